@@ -10,6 +10,13 @@
 (*   drop [ubar] = 50 m|m| (N/16 + zeta) + N m / 2                           *)
 (*   hydrostatic: 98100 ubar per metre;  v = m/10 m/s;  vdot = m/1000 m3/s   *)
 (*   lambda = 1/16 + 1/(100 |m|)                                             *)
+(* Friction models (s.fm, the pipeflow option friction_model): the line     *)
+(* above is the documented nikuradse law (laminar 64/Re + rough-pipe term). *)
+(* For colebrook  1/sqrt(l) = -2 log10(2.51/(Re sqrt(l)) + k/(3.71 D))  and   *)
+(* swamee-jain  l = 0.25 / log10(k/(3.7 D) + 5.74/Re^0.9)^2  the roughness  *)
+(* of each pipe is DESIGNED for its designed flow so that lambda = 1/16     *)
+(* exactly (10^-2 = 2.51*4/Re + k/(3.71 D), resp. k/(3.7 D) + 5.74/Re^0.9): *)
+(*   drop [ubar] = 50 m|m| (N/16 + zeta),   lambda = 1/16                   *)
 (* A scenario is a tree of junctions (node 1 = feeder) plus chords; demands *)
 (* and chord flows are chosen, the loss coefficient of every chord is       *)
 (* DERIVED from the law so that the designed flows are the unique solution. *)
@@ -40,10 +47,14 @@ Flow(s, k) == s.nodes[k].d + ChordOut(s, k)
 (* pressure drop in ubar of a branch carrying m *)
 (* a pump with the designed linear characteristic lift = N bar - zeta/10 bar per kg/s (never negative, none for reverse flow) *)
 PumpLift(N, zeta, m) == IF m < 0 THEN 0 ELSE LET l == N * 1000000 - zeta * 100000 * m IN IF l < 0 THEN 0 ELSE l
-Drop(kind, N, zeta, m) ==
-    IF kind = "pipe" THEN 50 * m * Abs(m) * ((N \div 16) + zeta) + (N * m) \div 2
+(* lam = 1: the laminar term 64/Re is part of lambda (nikuradse); lam = 0: lambda = 1/16 by design (colebrook, swamee-jain) *)
+Fm(s) == IF "fm" \in DOMAIN s THEN s.fm ELSE "nikuradse"
+LamOn(s) == IF Fm(s) = "nikuradse" THEN 1 ELSE 0
+DropF(lam, kind, N, zeta, m) ==
+    IF kind = "pipe" THEN 50 * m * Abs(m) * ((N \div 16) + zeta) + lam * ((N * m) \div 2)
     ELSE IF kind = "pump" THEN -PumpLift(N, zeta, m)
     ELSE 50 * m * Abs(m) * zeta                  \* valve, heat exchanger: lumped loss only
+Drop(kind, N, zeta, m) == DropF(1, kind, N, zeta, m)
 
 Hydro(s, ha, hb) == (s.pamb[ha] - s.pamb[hb]) + 98100 * (s.hm[ha] - s.hm[hb])
 (* gauge pressure gained going from height index ha to hb at rest (barometric reference + column); *)
@@ -53,13 +64,13 @@ Hydro(s, ha, hb) == (s.pamb[ha] - s.pamb[hb]) + 98100 * (s.hm[ha] - s.hm[hb])
 RECURSIVE P(_, _)
 P(s, k) == IF k = 1 THEN s.p0
            ELSE LET n == s.nodes[k]  pa == s.nodes[n.par]
-                IN P(s, n.par) + Hydro(s, pa.h, n.h) - Drop(n.kind, n.N, n.zeta, Flow(s, k))
+                IN P(s, n.par) + Hydro(s, pa.h, n.h) - DropF(LamOn(s), n.kind, n.N, n.zeta, Flow(s, k))
 
 (* the loss coefficient a chord must have, as a fraction <<num, den>>; admissible iff num >= 0 *)
 ChordZeta(s, i) ==
     LET c == s.chords[i]
         dp == P(s, c.a) - P(s, c.b) + Hydro(s, s.nodes[c.a].h, s.nodes[c.b].h)     \* driving pressure a -> b
-        fix == IF c.kind = "pipe" THEN 50 * c.mc * Abs(c.mc) * (c.N \div 16) + (c.N * c.mc) \div 2 ELSE 0
+        fix == IF c.kind = "pipe" THEN 50 * c.mc * Abs(c.mc) * (c.N \div 16) + LamOn(s) * ((c.N * c.mc) \div 2) ELSE 0
     IN <<dp - fix, 50 * c.mc * Abs(c.mc)>>
 ChordOK(s, i) == LET z == ChordZeta(s, i) IN s.chords[i].mc # 0 /\ z[2] # 0 /\ ((z[1] >= 0) = (z[2] > 0) \/ z[1] = 0)
 
@@ -69,5 +80,6 @@ NoZeroFlow(s) == (\A k \in Nodes(s) \ {1} : Flow(s, k) # 0)
 
 (* lambda in 1e-9: 1/16 + 1/(100 |m|)  (m divides 10^7 for the admissible flows) *)
 LambdaTick(m) == 62500000 + 10000000 \div Abs(m)
+LambdaTickF(s, m) == 62500000 + LamOn(s) * (10000000 \div Abs(m))
 FlowOKForLambda(m) == m # 0 /\ 10000000 % Abs(m) = 0
 =============================================================================
